@@ -279,9 +279,6 @@ class PairingToZ1d:
         if r < abs(l):
             self._projection = self._projection_with_switch_to_left
 
-        self._switch = False
-        self._kk = 0
-
     @cache
     def project(self, x: int):
         return self._projection(x + self._omitting_zero)
@@ -302,22 +299,16 @@ class PairingToZ1d:
         return projection_to_z(x)
 
     def _projection_with_switch_to_right(self, x: int) -> int:
-        res = projection_to_z(x)
-        if self._switch or res < self.left:
-            self._switch = True
-            self._kk += 1
-            val = -self.left + self._kk + 1
-            return val
-        return res
+        # 1, -1, 2, -2, ..., until the (shorter) left side is exhausted, then the remaining states of the right side
+        if x <= -2 * self.left + 1:
+            return projection_to_z(x)
+        return x + self.left
 
     def _projection_with_switch_to_left(self, x: int) -> int:
-        res = projection_to_z(x)
-        if self._switch or res > self.right:
-            self._switch = True
-            self._kk += 1
-            val = -self.right - self._kk
-            return val
-        return res
+        # 1, -1, 2, -2, ..., until the (shorter) right side is exhausted, then the remaining states of the left side
+        if x <= 2 * self.right:
+            return projection_to_z(x)
+        return self.right - x
 
 
 class Boundary:
